@@ -521,6 +521,15 @@ func main() {
 		return true
 	})
 	fmt.Fprintf(&b, "def createRevertCond : String := %s\n\n", leanStr(createCond))
+	// the size test of create (boundary: a return of exactly MaxCodeSize bytes is allowed)
+	sizeTest := ""
+	ast.Inspect(vm["EVM.create"].decl.Body, func(n ast.Node) bool {
+		if as, ok := n.(*ast.AssignStmt); ok && len(as.Lhs) == 1 && src(as.Lhs[0]) == "maxCodeSizeExceeded" {
+			sizeTest = src(as)
+		}
+		return true
+	})
+	fmt.Fprintf(&b, "def createSizeTest : String := %s\n\n", leanStr(sizeTest))
 
 	// ---- read-only guard of Run
 	guard := ""
@@ -649,6 +658,124 @@ func main() {
 		fail("contractExecutor.Execute not found")
 	}
 	fmt.Fprintf(&b, "def vmexecFacts : List String := %s\n\n", leanList(vf))
+
+	// ---- fork-flag reads on the C12 path: which function consults which proposal flag
+	flagSet := map[string]bool{}
+	scanFlags := func(pkg string, fns map[string]*fn, only string) {
+		for name, f := range fns {
+			if only != "" && !strings.HasPrefix(name, only) {
+				continue
+			}
+			ast.Inspect(f.decl.Body, func(n ast.Node) bool {
+				se, ok := n.(*ast.SelectorExpr)
+				if !ok {
+					return true
+				}
+				if strings.HasPrefix(se.Sel.Name, "IsProposal") || (strings.HasPrefix(se.Sel.Name, "Proposal") && strings.HasSuffix(se.Sel.Name, "Block")) {
+					flagSet[pkg+"."+name+":"+se.Sel.Name] = true
+				}
+				return true
+			})
+		}
+	}
+	scanFlags("vm", vm, "")
+	scanFlags("account", acct, "")
+	scanFlags("core", core, "VMExecutor.Execute")
+	scanFlags("executor", exe, "contractExecutor.")
+	fmt.Fprintf(&b, "def flagReads : List String := %s\n\n", leanList(keys(flagSet)))
+
+	// ---- writes to package-level variables from function bodies (shared mutable state on the path)
+	globalWrites := map[string]bool{}
+	scanGlobals := func(pkg, dir string, fns map[string]*fn) {
+		vars := map[string]bool{}
+		pk, _ := parser.ParseDir(fset, dir, func(fi os.FileInfo) bool {
+			return !strings.HasSuffix(fi.Name(), "_test.go") && !strings.Contains(fi.Name(), "verif")
+		}, 0)
+		for _, p := range pk {
+			for _, f := range p.Files {
+				for _, d := range f.Decls {
+					if gd, ok := d.(*ast.GenDecl); ok && gd.Tok == token.VAR {
+						for _, sp := range gd.Specs {
+							for _, nm := range sp.(*ast.ValueSpec).Names {
+								vars[nm.Name] = true
+							}
+						}
+					}
+				}
+			}
+		}
+		root := func(e ast.Expr) string {
+			for {
+				switch t := e.(type) {
+				case *ast.SelectorExpr:
+					e = t.X
+				case *ast.IndexExpr:
+					e = t.X
+				case *ast.StarExpr:
+					e = t.X
+				case *ast.ParenExpr:
+					e = t.X
+				case *ast.Ident:
+					return t.Name
+				default:
+					return ""
+				}
+			}
+		}
+		for name, f := range fns {
+			locals := map[string]bool{}
+			if f.decl.Type.Params != nil {
+				for _, fl := range f.decl.Type.Params.List {
+					for _, nm := range fl.Names {
+						locals[nm.Name] = true
+					}
+				}
+			}
+			if f.decl.Recv != nil {
+				for _, fl := range f.decl.Recv.List {
+					for _, nm := range fl.Names {
+						locals[nm.Name] = true
+					}
+				}
+			}
+			ast.Inspect(f.decl.Body, func(n ast.Node) bool {
+				switch t := n.(type) {
+				case *ast.AssignStmt:
+					if t.Tok == token.DEFINE {
+						for _, l := range t.Lhs {
+							if id, ok := l.(*ast.Ident); ok {
+								locals[id.Name] = true
+							}
+						}
+						return true
+					}
+					for _, l := range t.Lhs {
+						if r := root(l); r != "" && vars[r] && !locals[r] {
+							globalWrites[pkg+"."+name+":"+r] = true
+						}
+					}
+				case *ast.IncDecStmt:
+					if r := root(t.X); r != "" && vars[r] && !locals[r] {
+						globalWrites[pkg+"."+name+":"+r] = true
+					}
+				case *ast.DeclStmt:
+					if gd, ok := t.Decl.(*ast.GenDecl); ok {
+						for _, sp := range gd.Specs {
+							if vs, ok := sp.(*ast.ValueSpec); ok {
+								for _, nm := range vs.Names {
+									locals[nm.Name] = true
+								}
+							}
+						}
+					}
+				}
+				return true
+			})
+		}
+	}
+	scanGlobals("vm", filepath.Join(repo, "src", "vm"), vm)
+	scanGlobals("account", filepath.Join(repo, "src", "storage", "account"), acct)
+	fmt.Fprintf(&b, "def globalWrites : List String := %s\n\n", leanList(keys(globalWrites)))
 
 	// ---- constants of package vm the model relies on
 	consts := map[string]string{}
